@@ -89,6 +89,27 @@ func runC01(p *Prog, r *Report, tier string) {
 					okUse = true
 				}
 			}
+			// the guard in front of it must accept a field that exactly fills the rest of the set
+			buf, nn := c.Call.Args[0], c.Call.Args[1]
+			geq, gtr := false, false
+			for _, fct := range blockFacts(in.Block()) {
+				x, op, y := fct.X, fct.Op, fct.Y
+				if b, ok := isBufLen(y); ok && b == buf {
+					x, y, op = y, x, flipOp(op)
+				}
+				if b, ok := isBufLen(x); ok && b == buf && y == nn {
+					if op == token.GEQ {
+						geq = true
+					}
+					if op == token.GTR {
+						gtr = true
+					}
+				}
+			}
+			if geq || gtr {
+				r.Check(geq, "R-LAYOUT.field-guard", fnKey(dds)+": remaining-bytes test in front of the field", p.instrPos(in), "rejects only when fewer bytes remain than the field needs (Len() >= n passes)",
+					"the test also rejects a field that exactly fills the rest of the set body (Len() > n required): the last field of the last record of every valid data set is refused", true)
+			}
 			r.Check(okSel && okUse, "R-LAYOUT.field-bytes", fnKey(dds)+": bytes of one field", p.instrPos(in), "Next(prefix length | int(ie.Len)) handed with the same template element to the element decoder",
 				"a data field is not sliced by the template's length (or the section-7 prefix for variable-length elements) and decoded with its own template element", true)
 		})
@@ -326,6 +347,7 @@ func runC01(p *Prog, r *Report, tier string) {
 		}
 		r.Check(nLk == 2, "R-LAYOUT.field-specifier", fnKey(fr)+": registry lookup by (big-endian id bytes, enterprise number)", p.pos(fr.Pos()), "both branches", "the element id used for the registry lookup is not the big-endian value of the id bytes read from the wire", true)
 	}
+	checkSpecifierFreshness(p, r, "R-LAYOUT.field-specifier-fresh")
 	// framing of the stream transports (C11's rules, imported) and unconditional template replacement (C04's rule)
 	checkFraming(p, r)
 	checkTemplateReplace(p, r)
